@@ -28,6 +28,10 @@ use props::irb::*;
 use serde::{Deserialize, Serialize};
 use serde_json::{json, Value};
 use std::collections::BTreeSet;
+use std::sync::Mutex;
+
+/// Labels of programs with L < P in which the implementation nevertheless reported what the statement demands.
+static ORDER_DEPENDENT: Mutex<Vec<(usize, String, String)>> = Mutex::new(Vec::new());
 
 #[derive(Serialize, Deserialize, Clone, Debug)]
 struct Case {
@@ -86,7 +90,7 @@ fn slot(i: usize, p: &str) -> Slot {
         _ => d(vec![load(&t(0), r8("RAX"), e8("RAX"))]),
     }
 }
-const QUICK_SLOTS: [usize; 13] = [0, 1, 2, 4, 5, 6, 9, 10, 12, 15, 17, 19, 21];
+const QUICK_SLOTS: [usize; 14] = [0, 1, 2, 4, 5, 6, 7, 9, 10, 12, 15, 17, 19, 21];
 const THOROUGH_4SLOT: [usize; 13] = [0, 1, 2, 4, 5, 6, 9, 10, 12, 14, 17, 19, 20];
 
 fn externs() -> Vec<ExternSymbol> {
@@ -364,6 +368,11 @@ fn check_program(ctx: &Ctx, cfg: &Config, label: &str, raw: &Project, both_polic
             (_, true, true) | (false, false, false) => {
                 if v.p && !v.l {
                     ctx.stat("sources_with_L_below_P_reported_as_the_statement_demands", 1);
+                    let mut o = ORDER_DEPENDENT.lock().unwrap();
+                    let r = render(project);
+                    o.push((r.len(), label.to_string(), r));
+                    o.sort();
+                    o.truncate(3);
                 }
             }
             (_, false, true) => viol("cwe476 extra-warning", detail("reported although no path reaches a sink unchecked", t, Some(v))),
@@ -432,6 +441,7 @@ fn main() {
         }
     }
     ctx.set("index_space", json!(total));
+    ctx.set("smallest_programs_with_L_below_P_reported_as_P", json!(ORDER_DEPENDENT.lock().unwrap().iter().map(|(_, l, r)| json!({"label": l, "normalized_program": r})).collect::<Vec<_>>()));
     ctx.set(
         "bounds",
         json!({"skeletons": "line, diamond, loop, loop through the source call, diamond + second conditional, early return",
